@@ -49,8 +49,8 @@ _VERUS_ASSUMED = [
 PLAN["C03"] = {
     "level": "proof",
     "technique": "Verus contracts on the real kernels extracted from src/operations.rs each run (all n < 64, all tables, all indices) + Kani contract triples on the real Lut/LutN wrappers per size and index with an independent per-assignment oracle",
-    "level_text": "flip/swap/cofactor0/1/from_cofactors kernels are proved for every table length and every index by Verus (word-level postconditions; assignment-level ones for flip, cofactors and from_cofactors by machine-checked bridge lemmas); the wrappers of both types are proved per size (LutN 1..12, Lut 1..14) and per index (pair) by fully unwound Kani triples against `g(x) = f(x with bits moved)` evaluated independently, including in-place/copy agreement, operand preservation and the Shannon round trip.",
-    "level_note": "Trusted: Verus/Z3/vstd, Kani/CBMC, rustc, extraction rules of DESIGN 2.3. The assignment-level statement of swap is decided by Kani per size only (the Verus contract of swap is word-level). Kani triples fix size and index per harness (complete for that size/index).",
+    "level_text": "flip/swap/cofactor0/1/from_cofactors kernels are proved for every table length and every index by Verus (word-level postconditions and, by machine-checked bridge lemmas, the assignment-level statements g(x) = f(x with bits moved) for flip, swap, cofactors and from_cofactors; lemma_shannon gives the round trip); the wrappers of both types are proved per size (LutN 1..12, Lut 1..14) and per index (pair) by fully unwound Kani triples against `g(x) = f(x with bits moved)` evaluated independently, including in-place/copy agreement, operand preservation and the Shannon round trip.",
+    "level_note": "Trusted: Verus/Z3/vstd, Kani/CBMC, rustc, extraction rules of DESIGN 2.3. The assignment-level statements of all five kernels (including swap, via lemma_swap_bits over the three storage regimes) are machine-checked by Verus for all n; Kani triples fix size and index per harness (complete for that size/index).",
     "verus_units": ["kernels"],
     "kani_units": ["spec_ops.rs", "c03_transforms.rs"],
     "kani_filters": {"quick": ["c03q_"], "thorough": ["c03t_"]},
